@@ -2,6 +2,11 @@
 import BV.C17.Headers
 namespace BV.C17.HF
 
+/-- orphan pool invariant: at most one above the nominal bound, and a non-nil cached oldest
+    pointer only while the pool is within the bound -/
+def PoolOk (b : BState) : Prop :=
+  b.orphans.length ≤ MAX_ORPHANS + 1 ∧ (b.oldest.isSome = true → b.orphans.length ≤ MAX_ORPHANS)
+
 /-- best-header invariant: the best header is the root or an accepted header, and no accepted
     header has more work -/
 def BestOk (e : Env) (h : HState) : Prop :=
